@@ -18,6 +18,7 @@ import (
 	"go/token"
 	"path/filepath"
 	"sort"
+	"strconv"
 	"strings"
 )
 
@@ -35,6 +36,8 @@ type trCtx struct {
 	sel    func(*ast.SelectorExpr) string // other receivers than info (content.Type ...), "" when unknown
 	consts map[string]string              // package-level string constants, by name
 	eqSeqb bool                           // comparisons as seqb a b (also against ""), not as nonempty
+	ints   map[string]bool                // integer locals (from the Atoi-with-default pattern)
+	preds  map[string]string              // keep-or-drop rune functions usable in strings.Map, Go name -> Coq name
 }
 
 func (c *trCtx) fail(format string, a ...any) string {
@@ -89,23 +92,58 @@ func (c *trCtx) expr(e ast.Expr) string {
 					if ok1 && ok2 && len(a) == 1 && len(b) == 1 {
 						return fmt.Sprintf("(replace_byte x%02x x%02x %s)", a[0], b[0], c.expr(x.Args[0]))
 					}
+				case "strings.Map":
+					if id, ok := x.Args[0].(*ast.Ident); ok {
+						if pn, ok := c.preds[id.Name]; ok {
+							return "(filter " + pn + " " + c.expr(x.Args[1]) + ")"
+						}
+					}
+					return c.fail("strings.Map with a mapping that is not a translated keep-or-drop function")
+				case "strings.TrimLeft":
+					if cut, ok := strLit(x.Args[1]); ok && cut != "" {
+						var alts []string
+						for k := 0; k < len(cut); k++ {
+							if cut[k] >= 128 {
+								return c.fail("TrimLeft cutset outside ASCII")
+							}
+							alts = append(alts, fmt.Sprintf("beq b x%02x", cut[k]))
+						}
+						return "(drop_while (fun b => " + strings.Join(alts, " || ") + ") " + c.expr(x.Args[0]) + ")"
+					}
 				case "fmt.Sprintf":
 					f, ok := strLit(x.Args[0])
 					if !ok {
 						return c.fail("Sprintf with a format that is not a literal")
 					}
-					parts := strings.Split(f, "%s")
-					if strings.Contains(strings.Join(parts, ""), "%") || len(parts) != len(x.Args) {
-						return c.fail("Sprintf format %q has verbs other than %%s", f)
-					}
 					var out []string
-					for k, p := range parts {
-						if p != "" {
-							out = append(out, coqStr(p))
+					lit, arg := "", 1
+					for k := 0; k < len(f); k++ {
+						if f[k] != '%' {
+							lit += string(f[k])
+							continue
 						}
-						if k+1 < len(x.Args) {
-							out = append(out, c.expr(x.Args[k+1]))
+						if k+1 >= len(f) || (f[k+1] != 's' && f[k+1] != 'd') || arg >= len(x.Args) {
+							return c.fail("Sprintf format %q has verbs other than %%s and %%d", f)
 						}
+						if lit != "" {
+							out = append(out, coqStr(lit))
+							lit = ""
+						}
+						if f[k+1] == 's' {
+							out = append(out, c.expr(x.Args[arg]))
+						} else if id, ok := x.Args[arg].(*ast.Ident); ok && c.ints[id.Name] {
+							out = append(out, "(dec n_"+id.Name+")")
+						} else {
+							return c.fail("%%d of something that is not a translated integer variable")
+						}
+						arg++
+						k++
+					}
+					if lit != "" {
+						out = append(out, coqStr(lit))
+					}
+					if arg != len(x.Args) {
+						return c.fail("Sprintf with more arguments than verbs")
 					}
 					return "(" + strings.Join(out, " ++ ") + ")"
 				}
@@ -225,6 +263,33 @@ func (c *trCtx) stmts(ss []ast.Stmt, terminal string, ind string) string {
 		}
 		return c.expr(x.Results[0])
 	case *ast.AssignStmt:
+		// n, err := strconv.Atoi(e); if err != nil { n = K }
+		if len(x.Lhs) == 2 && len(x.Rhs) == 1 && x.Tok == token.DEFINE && len(rest) > 0 {
+			if ce, ok := x.Rhs[0].(*ast.CallExpr); ok {
+				if se, ok := ce.Fun.(*ast.SelectorExpr); ok && se.Sel.Name == "Atoi" && len(ce.Args) == 1 {
+					nv, _ := x.Lhs[0].(*ast.Ident)
+					ev, _ := x.Lhs[1].(*ast.Ident)
+					if is, ok := rest[0].(*ast.IfStmt); ok && nv != nil && ev != nil && is.Init == nil && is.Else == nil && len(is.Body.List) == 1 {
+						be, ok1 := is.Cond.(*ast.BinaryExpr)
+						as, ok2 := is.Body.List[0].(*ast.AssignStmt)
+						if ok1 && ok2 && be.Op == token.NEQ && len(as.Lhs) == 1 && as.Tok == token.ASSIGN {
+							l, _ := be.X.(*ast.Ident)
+							r, _ := be.Y.(*ast.Ident)
+							tv, _ := as.Lhs[0].(*ast.Ident)
+							k, _ := as.Rhs[0].(*ast.BasicLit)
+							if l != nil && r != nil && tv != nil && k != nil && l.Name == ev.Name && r.Name == "nil" && tv.Name == nv.Name && k.Kind == token.INT {
+								if c.ints == nil {
+									c.ints = map[string]bool{}
+								}
+								c.ints[nv.Name] = true
+								return "let n_" + nv.Name + " := match atoi " + c.expr(ce.Args[0]) + " with Some z => z | None => " + k.Value + "%Z end in\n" + ind + c.stmts(rest[1:], terminal, ind)
+							}
+						}
+					}
+				}
+			}
+			return c.fail("two-valued assignment outside the Atoi-with-default pattern")
+		}
 		if len(x.Lhs) != 1 || len(x.Rhs) != 1 {
 			return c.fail("assignment of several values")
 		}
@@ -276,8 +341,75 @@ func (c *trCtx) stmts(ss []ast.Stmt, terminal string, ind string) string {
 	return c.fail("statement outside the subset")
 }
 
+// runePred: "if COND { return r }; return -1" over a rune r, COND from r >= 'c', r <= 'c', isOneOf(r, 'c'...), && and ||,
+// as a predicate on bytes (every literal is ASCII, so a byte >= 0x80 - part of a longer or an invalid sequence - is dropped,
+// as strings.Map drops the rune it belongs to)
+func runePred(fd *ast.FuncDecl, c *trCtx) string {
+	if len(fd.Body.List) != 2 {
+		return c.fail("rune function outside the subset")
+	}
+	is, ok1 := fd.Body.List[0].(*ast.IfStmt)
+	last, ok2 := fd.Body.List[1].(*ast.ReturnStmt)
+	if !ok1 || !ok2 || is.Init != nil || is.Else != nil || len(is.Body.List) != 1 || len(last.Results) != 1 {
+		return c.fail("rune function outside the subset")
+	}
+	if ue, ok := last.Results[0].(*ast.UnaryExpr); !ok || ue.Op != token.SUB {
+		return c.fail("rune function whose last statement is not return -1")
+	}
+	if r, ok := is.Body.List[0].(*ast.ReturnStmt); !ok || len(r.Results) != 1 {
+		return c.fail("rune function outside the subset")
+	} else if id, ok := r.Results[0].(*ast.Ident); !ok || id.Name != fd.Type.Params.List[0].Names[0].Name {
+		return c.fail("rune function that maps to another rune")
+	}
+	ch := func(e ast.Expr) (int, bool) {
+		bl, ok := e.(*ast.BasicLit)
+		if !ok || bl.Kind != token.CHAR {
+			return 0, false
+		}
+		v, _, _, err := strconv.UnquoteChar(bl.Value[1:len(bl.Value)-1], '\'')
+		return int(v), err == nil && v < 128
+	}
+	var cond func(e ast.Expr) string
+	cond = func(e ast.Expr) string {
+		switch x := e.(type) {
+		case *ast.ParenExpr:
+			return cond(x.X)
+		case *ast.BinaryExpr:
+			switch x.Op {
+			case token.LOR:
+				return "(" + cond(x.X) + " || " + cond(x.Y) + ")"
+			case token.LAND:
+				return "(" + cond(x.X) + " && " + cond(x.Y) + ")"
+			case token.GEQ, token.LEQ:
+				if v, ok := ch(x.Y); ok {
+					if x.Op == token.GEQ {
+						return fmt.Sprintf("(%d <=? n)%%N", v)
+					}
+					return fmt.Sprintf("(n <=? %d)%%N", v)
+				}
+			}
+		case *ast.CallExpr:
+			if id, ok := x.Fun.(*ast.Ident); ok && id.Name == "isOneOf" && len(x.Args) >= 2 {
+				var alts []string
+				for _, a := range x.Args[1:] {
+					v, ok := ch(a)
+					if !ok {
+						return "(" + c.fail("isOneOf with a rune outside ASCII") + " : bool)"
+					}
+					alts = append(alts, fmt.Sprintf("beq b x%02x", v))
+				}
+				return "(" + strings.Join(alts, " || ") + ")"
+			}
+		}
+		return "(" + c.fail("rune condition outside the subset") + " : bool)"
+	}
+	return "let n := Byte.to_N b in " + cond(is.Cond)
+}
+
 func genStrFns(repo, out string) {
 	targets := []struct{ file, fn, coq string }{
+		{"arch/arch.go", "mapValidChar", "src_arch_mapValidChar"}, {"arch/arch.go", "validPkgName", "src_arch_validPkgName"},
+		{"arch/arch.go", "ConventionalFileName", "src_arch_filename"},
 		{"rpm/rpm.go", "defaultTo", "src_rpm_defaultTo"}, {"rpm/rpm.go", "formatVersion", "src_rpm_formatVersion"},
 		{"rpm/rpm.go", "ConventionalFileName", "src_rpm_filename"},
 		{"deb/deb.go", "ConventionalFileName", "src_deb_filename"}, {"ipk/ipk.go", "ConventionalFileName", "src_ipk_filename"},
@@ -285,8 +417,9 @@ func genStrFns(repo, out string) {
 	}
 	var b strings.Builder
 	b.WriteString("(* GENERATED from /repo on every run by translators/strfn.go - do not edit.\n   The packagers' string-composing functions, statement by statement; [arch] stands for info.Arch after the\n   packager's own architecture translation. *)\n")
-	b.WriteString("From Coq Require Import List String Bool.\nFrom Coq Require Import Strings.Byte.\nFrom NfpmV Require Import Lib.Bytes Model.Content Model.Meta.\nImport ListNotations.\nOpen Scope list_scope.\nOpen Scope bool_scope.\n\n")
+	b.WriteString("From Coq Require Import List String Bool NArith ZArith.\nFrom Coq Require Import Strings.Byte.\nFrom NfpmV Require Import Lib.Bytes Model.Content Model.Meta.\nImport ListNotations.\nOpen Scope list_scope.\nOpen Scope bool_scope.\n\n")
 	known := map[string]map[string]string{}
+	preds := map[string]map[string]string{}
 	for _, t := range targets {
 		f := parseFile(filepath.Join(repo, t.file))
 		var fd *ast.FuncDecl
@@ -300,7 +433,22 @@ func genStrFns(repo, out string) {
 		}
 		var params []string
 		takesInfo := false
-		c := &trCtx{known: known[t.file]}
+		if preds[t.file] == nil {
+			preds[t.file] = map[string]string{}
+		}
+		c := &trCtx{known: known[t.file], preds: preds[t.file]}
+		if fd != nil && len(fd.Type.Params.List) == 1 {
+			if id, ok := fd.Type.Params.List[0].Type.(*ast.Ident); ok && id.Name == "rune" {
+				body := runePred(fd, c)
+				if c.err != "" {
+					fmt.Fprintf(&b, "(* %s %s: UNTRANSLATABLE - %s *)\nDefinition %s (b : byte) : bool := false.\nDefinition %s_translated : bool := false.\n\n", t.file, t.fn, c.err, t.coq, t.coq)
+				} else {
+					fmt.Fprintf(&b, "(* %s: func %s, as a predicate on bytes *)\nDefinition %s (b : byte) : bool :=\n  %s.\nDefinition %s_translated : bool := true.\n\n", t.file, t.fn, t.coq, body, t.coq)
+				}
+				preds[t.file][t.fn] = t.coq
+				continue
+			}
+		}
 		if fd == nil {
 			c.fail("no function %s in %s", t.fn, t.file)
 		} else {
